@@ -157,6 +157,9 @@ def write_replay(prop, tier, v):
 
 
 def replay(mod_id, path):
+    mod = _load(mod_id)
+    if hasattr(mod, 'replay'):
+        return mod.replay(path)
     with open(path) as f:
         r = json.load(f)
     from . import env
@@ -202,6 +205,8 @@ def main(mod_id, tier, seed):
     env.install()
     env.scratch_base()
     pegshim.selftest()
+    if hasattr(mod, 'custom_main'):
+        return mod.custom_main(tier, seed, sys.modules[__name__])
     jobs = int(os.environ.get('T4MC_JOBS', '16'))
     budget = float(os.environ.get('T4MC_BUDGET_S', '200' if tier == 'quick' else '3000'))
     findings = load_findings()
